@@ -260,6 +260,7 @@ func runC02(r *ev.Run) {
 		}
 	})
 	fwRun(r, "C02")
+	zooRun(r, "C02")
 }
 
 // ---------------------------------------------------------------- C03
@@ -364,6 +365,7 @@ func runC03(r *ev.Run) {
 		}
 	})
 	c03GoTypes(r)
+	zooRun(r, "C03")
 }
 
 // c03Sqlite asks real SQLite for the rows whose indexed columns IS the key
